@@ -51,9 +51,11 @@ func init() {
 			{recv: "uvarintReader", name: "ReadUvarint"}, {recv: "uvarintReader", name: "ReadByte"},
 			{recv: "OffsetAndSizeAndSlot", name: "FromReader"},
 			{name: "encodeUvarint"},
+			{name: "OffsetAndSizeAndSlotSliceFromBytes"},
 		},
 		externs: []string{"binary.AppendUvarint", "binary.Uvarint", "binary.PutUvarint:out0", "slices.Clip"},
 		devirt:  map[string]string{"UvarintReader": "uvarintReader"},
+		hoist:   true,
 	})
 	registerGoLite(glGroup{id: "golitec14", out: "GoLiteC14.v", pkgDir: "ipld/ipldbindcode",
 		funcs:   []glFunc{{name: "VerifyHash"}},
